@@ -6,7 +6,7 @@ from fractions import Fraction
 from ..core.db import AnalysisError, norm_stmt, walk_no_nested
 from ..core.interp import Const, Tup, Unknown, Obj, Frame
 from ..core.norm import Rat
-from .common import norm_interp
+from .common import norm_interp, returns
 
 D = 'prysm.detector.'
 B = 'prysm.bayer.'
@@ -172,108 +172,193 @@ def bayer_rules(run, db):
     def k_wb(st):
         if isinstance(st, ast.AugAssign) and isinstance(st.op, ast.Mult) and isinstance(st.target, ast.Subscript) and ast.unparse(st.target.slice) in SITES and isinstance(st.value, ast.Name):
             return [(st.value.id[1:] if st.value.id.startswith('w') else st.value.id, ast.unparse(st.target.slice))]
-    for fname, kind in (('decomposite_bayer', k_decomp), ('recomposite_bayer', k_recomp), ('composite_bayer', k_comp), ('wb_prescale', k_wb)):
-        fi = db.func(B + fname)
-        tabs = _branch_tables(fi, kind)
-        canon = {}
-        if fname == 'decomposite_bayer':
-            # the colour of a plane is its position in the returned tuple (r, g1, g2, b), not the spelling of the local
-            rets = [n for n in walk_no_nested(fi.node) if isinstance(n, ast.Return) and isinstance(n.value, ast.Tuple) and len(n.value.elts) == 4
-                    and all(isinstance(e, ast.Name) for e in n.value.elts)]
-            if len(rets) != 1:
-                raise AnalysisError('decomposite_bayer: does not return four named planes')
-            canon = dict(zip([e.id for e in rets[0].value.elts], ('r', 'g1', 'g2', 'b')))
-        for cfa in ('rggb', 'bggr'):
-            tab = tabs.get(cfa)
-            if not tab:
-                raise AnalysisError('%s: branch for %s not found' % (fname, cfa))
-            flat = {canon.get(k, k): (v[0] if len(v) == 1 else v) for k, v in tab.items()}
-            run.check(flat == REF[cfa], 'C16.bayer', fi.qual, '%s table' % cfa, '%s[%s]: colour->site map equals the layout %s' % (fname, cfa, REF[cfa]),
-                      '%s with cfa=%s maps %s, expected %s: samples change colour plane / position' % (fname, cfa, flat, REF[cfa]), fi.loc())
-    # demosaic_malvar: native sites copied from the mosaic, interpolated sites from the right estimate
-    fi = db.func(B + 'demosaic_malvar')
-
-    def k_mal(st):
-        if isinstance(st, ast.Assign) and isinstance(st.targets[0], ast.Subscript) and isinstance(st.value, ast.Subscript) and ast.unparse(st.targets[0].slice) in SITES:
-            return [('%s@%s' % (ast.unparse(st.targets[0].value), ast.unparse(st.targets[0].slice)), '%s[%s]' % (ast.unparse(st.value.value), ast.unparse(st.value.slice)))]
-    # roles: the planes by their position in the returned stack (red, green, blue); the estimates by the kernel they are convolved with
-    st_ = [n for n in walk_no_nested(fi.node) if isinstance(n, ast.Return) and isinstance(n.value, ast.Call) and ast.unparse(n.value.func).endswith('stack') and n.value.args
-           and isinstance(n.value.args[0], (ast.Tuple, ast.List)) and len(n.value.args[0].elts) == 3 and all(isinstance(e, ast.Name) for e in n.value.args[0].elts)]
-    if len(st_) != 1:
-        raise AnalysisError('demosaic_malvar: does not return a stack of three named planes')
-    mcanon = dict(zip([e.id for e in st_[0].value.args[0].elts], ('red', 'green', 'blue')))
-    kname_of = {}
-    for st in fi.node.body:
-        if isinstance(st, ast.Assign) and isinstance(st.value, ast.BinOp) and 'np.array(' in ast.unparse(st.value.left) and isinstance(st.targets[0], ast.Name):
-            kname_of[st.targets[0].id] = ast.unparse(st.value.left.args[0])
-    est_role = {'kernel_G_at_R_or_B': 'Gest', 'kernel_R_at_G_in_RB': 'c1', 'kernel_R_at_G_in_BR': 'c2', 'kernel_R_at_B_in_BB': 'c3'}
-    for st in fi.node.body:
-        if isinstance(st, ast.Assign) and isinstance(st.value, ast.Call) and ast.unparse(st.value.func).endswith('convolve') and isinstance(st.targets[0], ast.Name) and len(st.value.args) >= 2:
-            role = est_role.get(kname_of.get(ast.unparse(st.value.args[1])))
-            if role:
-                mcanon[st.targets[0].id] = role
-    for st in fi.node.body:          # plain aliases (green = Gest)
-        if isinstance(st, ast.Assign) and isinstance(st.value, ast.Name) and isinstance(st.targets[0], ast.Name) and st.value.id in mcanon and st.targets[0].id in mcanon:
-            pass
-    cn = lambda nme: mcanon.get(nme, nme)
-
-    def k_mal(st):          # noqa: F811  (canonical names)
-        if isinstance(st, ast.Assign) and isinstance(st.targets[0], ast.Subscript) and isinstance(st.value, ast.Subscript) and ast.unparse(st.targets[0].slice) in SITES:
-            return [('%s@%s' % (cn(ast.unparse(st.targets[0].value)), ast.unparse(st.targets[0].slice)), '%s[%s]' % (cn(ast.unparse(st.value.value)), ast.unparse(st.value.slice)))]
-    tabs = _branch_tables(fi, k_mal)
-    ref_rggb = {'red@top_left': 'img[top_left]', 'red@top_right': 'c1[top_right]', 'red@bottom_left': 'c2[bottom_left]', 'red@bottom_right': 'c3[bottom_right]',
-                'blue@top_left': 'c3[top_left]', 'blue@top_right': 'c2[top_right]', 'blue@bottom_left': 'c1[bottom_left]', 'blue@bottom_right': 'img[bottom_right]'}
-    swap = lambda k: k.replace('red@', 'X@').replace('blue@', 'red@').replace('X@', 'blue@')
-    ref = {'rggb': ref_rggb, 'bggr': {swap(k): v for k, v in ref_rggb.items()}}
+    # the four colour<->site routines are decided by interpreting them for each layout (the layout is a concrete string, so
+    # if-chains, dict dispatch and loops over site tables all evaluate): reading a plane is `mosaic[site]`, writing one is a store
+    # into `[site]`; a site is identified by the (row, column) offsets of its stride-2 slices
+    from ..core.interp import Slice as _Slice
     for cfa in ('rggb', 'bggr'):
-        tab = {k: (v[0] if len(v) == 1 else v) for k, v in (tabs.get(cfa) or {}).items()}
-        run.check(tab == ref[cfa], 'C16.bayer', fi.qual, 'malvar %s' % cfa, 'red/blue planes: native sites copied from the mosaic, other sites from the matching estimate (%s)' % cfa,
-                  'demosaic_malvar[%s] fills %s, expected %s' % (cfa, {k: v for k, v in tab.items() if ref[cfa].get(k) != v}, {k: v for k, v in ref[cfa].items() if tab.get(k) != v}), fi.loc())
-    greens = {}
-    for st in fi.node.body:
-        r = k_mal(st)
-        if r:
-            greens[r[0][0]] = r[0][1]
-    run.check(greens == {'green@top_right': 'img[top_right]', 'green@bottom_left': 'img[bottom_left]'}, 'C16.bayer', fi.qual, 'malvar green', 'green plane keeps the raw samples at both green sites',
-              'green plane native copies are %s' % greens, fi.loc())
-    # kernels: literal / 8 sums to one
-    it, dom = norm_interp(db)
-    divs = {}
-    for st in fi.node.body:
-        if isinstance(st, ast.Assign) and isinstance(st.value, ast.BinOp) and isinstance(st.value.op, ast.Div) and 'np.array(' in ast.unparse(st.value.left):
-            kname = ast.unparse(st.value.left.args[0])
-            divs[kname] = st.value.right
-    if len(divs) < 4:
-        raise AnalysisError('demosaic_malvar: kernel normalisations not found')
-    for kname, div in divs.items():
-        e = mod.assigns.get(kname)
+        it_, dom_ = norm_interp(db)
+        osub, ost, oe = dom_.subscript, dom_.store_subscript, dom_.call_ext
+        stores = []
+
+        def site_of(idx):
+            items = idx.items if isinstance(idx, Tup) else None
+            if items is None or len(items) != 2 or not all(isinstance(x, _Slice) for x in items):
+                return None
+            offs = []
+            for sl in items:
+                lo, st_ = sl.lo, sl.step
+                if not (isinstance(st_, Const) and st_.v == 2 and isinstance(lo, Const) and lo.v in (0, 1, None) and isinstance(sl.hi, Const) and sl.hi.v is None):
+                    return None
+                offs.append(lo.v or 0)
+            return next((nm_ for nm_, rc in SITES.items() if rc == tuple(offs)), None)
+
+        def subscript(v, idx, node, dom_=dom_, osub=osub):
+            st_ = site_of(idx)
+            if st_ is not None and dom_.rat(v) is not None:
+                return dom_.func_atom('at_' + st_, [v])
+            return osub(v, idx, node)
+
+        def store_subscript(target, idx, val, node, dom_=dom_, ost=ost, stores=stores):
+            st_ = site_of(idx)
+            if st_ is not None and dom_.rat(target) is not None:
+                stores.append((dom_.rat(target).key(), st_, dom_.rat(val), node))
+                return True
+            return ost(target, idx, val, node)
+
+        def call_ext(dotted, args, kwargs, node, dom_=dom_, oe=oe):
+            if dotted.rsplit('.', 1)[-1] in ('empty', 'zeros', 'empty_like', 'zeros_like'):
+                return dom_.sym('OUT')
+            return oe(dotted, args, kwargs, node)
+        dom_.subscript, dom_.store_subscript, dom_.call_ext = subscript, store_subscript, call_ext
+        R_ = dom_.R
+        A_ = lambda nme: Rat(R_.atom(nme))
+        at = lambda site, arr: Rat(R_.func('at_' + site, [A_(arr)]))
+        ref = REF[cfa]
+        # decomposite_bayer: the returned planes, in the order (r, g1, g2, b)
+        fi = db.func(B + 'decomposite_bayer')
+        res = returns(it_.run(fi, kwargs=lambda: {'img': dom_.sym('IMG'), 'cfa': Const(cfa)}), fi)
+        got = [dom_.rat(x) for x in res[0].value.items] if len(res) == 1 and isinstance(res[0].value, Tup) and len(res[0].value.items) == 4 else []
+        want = [at(ref[c_], 'IMG') for c_ in ('r', 'g1', 'g2', 'b')]
+        run.check(len(got) == 4 and all(g is not None and g == w for g, w in zip(got, want)), 'C16.bayer', fi.qual, '%s table' % cfa, 'decomposite_bayer[%s] returns (r, g1, g2, b) read from the sites %s' % (cfa, ref),
+                  'decomposite_bayer with cfa=%s returns %s, expected %s: samples change colour plane' % (cfa, [g.key() if g is not None else '?' for g in got], [w.key() for w in want]), fi.loc())
+        # recomposite_bayer / composite_bayer: what is stored at which site
+        for fname, src in (('recomposite_bayer', lambda c_, site: A_(c_.upper())), ('composite_bayer', lambda c_, site: at(site, c_.upper()))):
+            fi = db.func(B + fname)
+            del stores[:]
+            it_.run(fi, kwargs=lambda: {'r': dom_.sym('R'), 'g1': dom_.sym('G1'), 'g2': dom_.sym('G2'), 'b': dom_.sym('B'), 'cfa': Const(cfa), 'output': Const(None)})
+            tab = {site: val for tgt, site, val, nd in stores}
+            wantt = {ref[c_]: src(c_, ref[c_]) for c_ in ('r', 'g1', 'g2', 'b')}
+            ok = len(stores) == 4 and set(tab) == set(wantt) and all(tab[k] is not None and tab[k] == wantt[k] for k in wantt)
+            run.check(ok, 'C16.bayer', fi.qual, '%s table' % cfa, '%s[%s] writes each colour plane to its site %s' % (fname, cfa, ref),
+                      '%s with cfa=%s writes %s, expected %s: samples change colour plane / position' % (fname, cfa, {k: (v.key() if v is not None else '?') for k, v in tab.items()}, {k: v.key() for k, v in wantt.items()}), fi.loc())
+        # wb_prescale: each site of the mosaic is multiplied by the gain of the colour that sits there
+        fi = db.func(B + 'wb_prescale')
+        del stores[:]
+        it_.run(fi, kwargs=lambda: {'mosaic': dom_.sym('MOSAIC'), 'wr': dom_.sym('WR'), 'wg1': dom_.sym('WG1'), 'wg2': dom_.sym('WG2'), 'wb': dom_.sym('WB'), 'cfa': Const(cfa), 'safe': Const(False), 'saturation': Const(None)})
+        tab = {site: val for tgt, site, val, nd in stores if tgt == 'MOSAIC'}
+        wantt = {ref[c_]: at(ref[c_], 'MOSAIC') * A_('W' + c_.upper()) for c_ in ('r', 'g1', 'g2', 'b')}
+        ok = len(stores) == 4 and set(tab) == set(wantt) and all(tab[k] is not None and tab[k] == wantt[k] for k in wantt)
+        run.check(ok, 'C16.bayer', fi.qual, '%s table' % cfa, 'wb_prescale[%s] scales each site by the gain of its colour %s' % (cfa, ref),
+                  'wb_prescale with cfa=%s leaves %s, expected %s: a gain is applied to the wrong colour' % (cfa, {k: (v.key() if v is not None else '?') for k, v in tab.items()}, {k: v.key() for k, v in wantt.items()}), fi.loc())
+    # demosaic_malvar, by interpretation for each layout: the estimates are the mosaic convolved with the named kernels divided by
+    # a number that makes them sum to one; red/blue keep the raw samples at their native sites and take the matching estimate
+    # elsewhere; green is the green estimate with the raw samples at both green sites; the result is the stack (red, green, blue)
+    from ..core.interp import Value, Frame as _Frame
+    fi = db.func(B + 'demosaic_malvar')
+    KNAMES = ('kernel_G_at_R_or_B', 'kernel_R_at_G_in_RB', 'kernel_R_at_G_in_BR', 'kernel_R_at_B_in_BB')
+    itk, domk = norm_interp(db)
+    ksum, kval = {}, {}
+    for kn in KNAMES:
+        e = mod.assigns.get(kn)
         if e is None:
-            raise AnalysisError('kernel %s not found' % kname)
-        it._reset_run([])
-        v = it.ev(e, Frame(None, mod, {}))
-        total = Rat(dom.R.const(0))
+            raise AnalysisError('kernel %s not found' % kn)
+        itk._reset_run([])
+        v = itk.ev(e, _Frame(None, mod, {}))
+        tot = Rat(domk.R.const(0))
         cnt = 0
         for row in v.items:
             for x in row.items:
-                total = total + dom.rat(x)
+                tot = tot + domk.rat(x)
                 cnt += 1
-        d = dom.rat(it.ev(div, Frame(None, mod, {})))
-        run.check(cnt == 25 and total / d == 1, 'C16.kernel', fi.qual, kname, '%s / %s sums to 1 (flat fields are preserved)' % (kname, d.key()),
-                  'kernel %s sums to %s after division by %s (must be 1)' % (kname, (total / d).key(), d.key()), fi.loc())
-    # convolution wiring c1/c2/c3 <- kernels
-    wires = {}
-    for st in fi.node.body:
-        if isinstance(st, ast.Assign) and isinstance(st.value, ast.Call) and ast.unparse(st.value.func).endswith('convolve'):
-            wires[ast.unparse(st.targets[0])] = [ast.unparse(a) for a in st.value.args]
-    names = {}
-    for st in fi.node.body:
-        if isinstance(st, ast.Assign) and isinstance(st.value, ast.BinOp) and 'np.array(' in ast.unparse(st.value.left):
-            names[ast.unparse(st.targets[0])] = ast.unparse(st.value.left.args[0])
-    ok = sorted(names.get(v[1]) or '?' for v in wires.values()) == sorted(est_role) and all(v[0] == 'img' for v in wires.values())
-    # the green plane starts as the green estimate
-    gsrc = [st for st in fi.node.body if isinstance(st, ast.Assign) and isinstance(st.targets[0], ast.Name) and mcanon.get(st.targets[0].id) == 'green']
-    ok = ok and len(gsrc) == 1 and isinstance(gsrc[0].value, ast.Name) and mcanon.get(gsrc[0].value.id) == 'Gest'
-    run.check(ok, 'C16.bayer', fi.qual, 'estimates', 'Gest/c1/c2/c3 are the mosaic convolved with their kernels', 'estimate wiring changed: %s' % {k: names.get(v[1]) for k, v in wires.items()}, fi.loc())
+        if cnt != 25 or not (tot.num.is_const() and tot.den.is_const()):
+            raise AnalysisError('kernel %s is not a 5x5 table of numbers' % kn)
+        ksum[kn] = tot.num.const_value() / tot.den.const_value()
+        kval[kn] = repr(v)
+
+    class Kern(Value):
+        def __init__(self, name, scale):
+            self.name, self.scale = name, scale
+
+        def __repr__(self):
+            return 'Kern(%s x %s)' % (self.name, self.scale)
+    est_role = {'kernel_G_at_R_or_B': 'Gest', 'kernel_R_at_G_in_RB': 'c1', 'kernel_R_at_G_in_BR': 'c2', 'kernel_R_at_B_in_BB': 'c3'}
+    from ..core.interp import Slice as _Slice2
+    kernel_checked = set()
+    for cfa in ('rggb', 'bggr'):
+        it_, dom_ = norm_interp(db)
+        osub, ost, oe, ob = dom_.subscript, dom_.store_subscript, dom_.call_ext, dom_.binop
+        stores = []
+        outs = []
+
+        def site_of2(idx):
+            items = idx.items if isinstance(idx, Tup) else None
+            if items is None or len(items) != 2 or not all(isinstance(x, _Slice2) for x in items):
+                return None
+            offs = []
+            for sl in items:
+                if not (isinstance(sl.step, Const) and sl.step.v == 2 and isinstance(sl.lo, Const) and sl.lo.v in (0, 1, None) and isinstance(sl.hi, Const) and sl.hi.v is None):
+                    return None
+                offs.append(sl.lo.v or 0)
+            return next((nm_ for nm_, rc in SITES.items() if rc == tuple(offs)), None)
+
+        def subscript(v, idx, node, dom_=dom_, osub=osub):
+            st_ = site_of2(idx)
+            if st_ is not None and dom_.rat(v) is not None:
+                return dom_.func_atom('at_' + st_, [v])
+            return osub(v, idx, node)
+
+        def store_subscript(target, idx, val, node, dom_=dom_, ost=ost, stores=stores):
+            st_ = site_of2(idx)
+            if st_ is not None and dom_.rat(target) is not None:
+                stores.append((dom_.rat(target).key(), st_, dom_.rat(val), node))
+                return True
+            return ost(target, idx, val, node)
+
+        def call_ext(dotted, args, kwargs, node, dom_=dom_, oe=oe, outs=outs):
+            last = dotted.rsplit('.', 1)[-1]
+            if last in ('empty_like', 'zeros_like', 'empty', 'zeros'):
+                outs.append('OUT%d' % len(outs))
+                return dom_.sym(outs[-1])
+            if last in ('array', 'asarray') and args and isinstance(args[0], Tup):
+                hit = [kn for kn in KNAMES if repr(args[0]) == kval[kn]]
+                if len(hit) >= 1:
+                    return Kern(hit[0], Rat(dom_.R.const(1)))
+            if last == 'convolve' and len(args) >= 2 and isinstance(args[1], Kern) and dom_.rat(args[0]) is not None:
+                k = args[1]
+                tot = k.scale * Rat(dom_.R.const(ksum[k.name]))
+                if k.name not in kernel_checked:
+                    kernel_checked.add(k.name)
+                    run.check(tot == 1, 'C16.kernel', fi.qual, k.name, '%s times its scale sums to 1 (flat fields are preserved)' % k.name,
+                              'kernel %s sums to %s after scaling by %s (must be 1)' % (k.name, tot.key(), k.scale.key()), fi.loc(node))
+                return dom_.func_atom(est_role[k.name], [args[0]])
+            if last == 'stack' and args and isinstance(args[0], Tup):
+                return Tup(list(args[0].items), 'stack')
+            return oe(dotted, args, kwargs, node)
+
+        def binop(op, a, b, node, dom_=dom_, ob=ob):
+            if isinstance(a, Kern) and dom_.rat(b) is not None and isinstance(op, (ast.Div, ast.Mult)):
+                return Kern(a.name, a.scale / dom_.rat(b) if isinstance(op, ast.Div) else a.scale * dom_.rat(b))
+            if isinstance(b, Kern) and dom_.rat(a) is not None and isinstance(op, ast.Mult):
+                return Kern(b.name, b.scale * dom_.rat(a))
+            return ob(op, a, b, node)
+        dom_.subscript, dom_.store_subscript, dom_.call_ext, dom_.binop = subscript, store_subscript, call_ext, binop
+        res = returns(it_.run(fi, kwargs=lambda: {'img': dom_.sym('IMG'), 'cfa': Const(cfa)}), fi)
+        if len(res) != 1 or not (isinstance(res[0].value, Tup) and len(res[0].value.items) == 3):
+            raise AnalysisError('demosaic_malvar[%s]: does not return a stack of three planes on one path' % cfa)
+        planes = [dom_.rat(x) for x in res[0].value.items]
+        if any(p_ is None for p_ in planes):
+            raise AnalysisError('demosaic_malvar[%s]: planes outside NORM' % cfa)
+        R_ = dom_.R
+        IMG = Rat(R_.atom('IMG'))
+        est = lambda nm_: Rat(R_.func(nm_, [IMG]))
+        at = lambda site, arr: Rat(R_.func('at_' + site, [arr]))
+        native_r = REF[cfa]['r']
+        # per plane: what is stored at each site
+        def table(plane):
+            return {site: val for tgt, site, val, nd in stores if tgt == plane.key()}
+        redt, greent, bluet = table(planes[0]), table(planes[1]), table(planes[2])
+        # rggb: red native at top_left; the estimate for a red value at a green site in a red row (c1) belongs to the other site of that row, etc.
+        want_first = {'top_left': at('top_left', IMG), 'top_right': at('top_right', est('c1')), 'bottom_left': at('bottom_left', est('c2')), 'bottom_right': at('bottom_right', est('c3'))}
+        want_second = {'top_left': at('top_left', est('c3')), 'top_right': at('top_right', est('c2')), 'bottom_left': at('bottom_left', est('c1')), 'bottom_right': at('bottom_right', IMG)}
+        want_red, want_blue = (want_first, want_second) if cfa == 'rggb' else (want_second, want_first)
+        okrb = redt == want_red and bluet == want_blue and planes[0] != planes[2]
+        show = lambda t_: {k: (v.key() if v is not None else '?') for k, v in sorted(t_.items())}
+        run.check(okrb, 'C16.bayer', fi.qual, 'malvar %s' % cfa, 'red/blue planes: native sites copied from the mosaic, other sites from the matching estimate (%s)' % cfa,
+                  'demosaic_malvar[%s] fills red with %s and blue with %s, expected %s and %s' % (cfa, show(redt), show(bluet), show(want_red), show(want_blue)), fi.loc())
+        okg = planes[1] == est('Gest') and greent == {'top_right': at('top_right', IMG), 'bottom_left': at('bottom_left', IMG)}
+        run.check(okg, 'C16.bayer', fi.qual, 'malvar green %s' % cfa, 'green plane is the green estimate with the raw samples at both green sites',
+                  'the green plane is %s with the sites %s overwritten' % (planes[1].key(), show(greent)), fi.loc())
     # deinterlace
     fd = db.func(B + 'demosaic_deinterlace')
     from ..core.pattern import match_all
@@ -302,7 +387,17 @@ def cfa_passthrough_rules(run, db):
             for k in c.keywords:
                 if k.arg == 'cfa':
                     arg = k.value
-            ok = isinstance(arg, ast.Name) and arg.id == 'cfa'
+            # the caller's layout itself, or a case-normalised spelling of it (cfa.lower()), possibly through a local bound to that
+            def is_cfa(e, depth=0):
+                if isinstance(e, ast.Name) and e.id == 'cfa':
+                    return True
+                if isinstance(e, ast.Call) and isinstance(e.func, ast.Attribute) and e.func.attr in ('lower', 'strip', 'casefold') and not e.args:
+                    return is_cfa(e.func.value, depth)
+                if isinstance(e, ast.Name) and depth < 3:
+                    defs_ = [n_.value for n_ in walk_no_nested(fi.node) if isinstance(n_, ast.Assign) and any(isinstance(t_, ast.Name) and t_.id == e.id for t_ in n_.targets)]
+                    return bool(defs_) and all(is_cfa(d_, depth + 1) for d_ in defs_)
+                return False
+            ok = arg is not None and is_cfa(arg)
             run.check(ok, 'C16.bayer', fi.qual, 'layout passed to %s' % callee.name, '%s passes its cfa on to %s' % (fi.name, callee.name),
                       '%s calls `%s` without its own cfa: the callee falls back to its default layout (rggb), so for bggr data the red and blue sites are exchanged' % (fi.name, ast.unparse(c)), fi.loc(c))
     if n < 2:
@@ -354,6 +449,16 @@ def live_state_rules(run, db):
                   % (ast.unparse(z), [ast.unparse(a) for a in other]), f.loc(z))
 
 
+def _unit_scale_path(p):
+    """a path on which the code found its scale factor to be exactly 1 and skipped the multiplication (`if sf != 1:` not taken, or
+    `if weight == 1: return` taken): the same thing as multiplying."""
+    for c, t in p.conds:
+        c = c.strip()
+        if (t is False and re.match(r'^\w+\s*!=\s*1(\.0*)?$', c)) or (t is True and re.match(r'^\w+\s*==\s*1(\.0*)?$', c)):
+            return True
+    return False
+
+
 def bin_rules(run, db):
     from . import ftkernels as K
     from ..domains.index import Shaped
@@ -391,7 +496,7 @@ def bin_rules(run, db):
     ok3 = False
     got3 = None
     for p in res3:
-        if any(t is False and 'sf != 1' in c for c, t in p.conds):
+        if _unit_scale_path(p):
             continue
         v = p.value
         if isinstance(v, Shaped) and v.origin is not None and v.origin[0] == 'scale' and v.origin[1] == 'Mult':
@@ -410,7 +515,7 @@ def bin_rules(run, db):
         if not res:
             raise AnalysisError('tile(%s): no returning path' % scaling)
         for p in res:
-            if any(t is False and re.match(r'^\w+\s*!=\s*1$', c.strip()) for c, t in p.conds) and want_sf is not None:
+            if _unit_scale_path(p) and want_sf is not None:
                 continue        # sf == 1 (unit factors): skipping the multiplication is the same thing
             v = p.value
             sf = None
